@@ -1,10 +1,127 @@
 //! The target of the one hook in /repo: with `--cfg ruler_verif`, `src/build.rs`
-//! imports `thread` and `mpsc` from here instead of from `std`.  Both are
-//! shuttle's drop-in replacements, so every spawn, join, send and receive of the
-//! real `build()` / `clean()` becomes a scheduling point of our own scheduler
-//! (`crate::sched`).
-pub use shuttle::thread;
+//! imports `thread` and `mpsc` from here instead of from `std`.
+//!
+//! Both are thin wrappers over shuttle's drop-in replacements, so every spawn, join,
+//! send, receive and *endpoint drop* of the real `build()` / `clean()` is a scheduling
+//! point of our own scheduler (`crate::sched`).  Before each such point the wrapper
+//! *declares* the operation the task is about to perform (`sched::declare`), which is
+//! what the sleep-set partial-order reduction needs: at every scheduling point the
+//! next visible operation of every runnable task is known.
+use crate::sched::{declare, in_execution, OpDesc};
+
+pub mod thread
+{
+    use super::*;
+
+    pub struct JoinHandle<T>
+    {
+        inner: shuttle::thread::JoinHandle<T>,
+        n: usize,
+    }
+
+    impl<T> JoinHandle<T>
+    {
+        pub fn join(self) -> std::thread::Result<T>
+        {
+            declare(OpDesc::Thread(self.n, "join"));
+            self.inner.join()
+        }
+    }
+
+    pub fn spawn<F, T>(f: F) -> JoinHandle<T>
+    where
+        F: FnOnce() -> T + Send + 'static,
+        T: Send + 'static,
+    {
+        let n = crate::sched::fresh_thread_id();
+        declare(OpDesc::Thread(n, "spawn"));
+        JoinHandle
+        {
+            n,
+            inner: shuttle::thread::spawn(move ||
+            {
+                declare(OpDesc::Thread(n, "start"));
+                let r = f();
+                declare(OpDesc::Thread(n, "exit"));
+                r
+            }),
+        }
+    }
+}
+
 pub mod mpsc
 {
-    pub use shuttle::sync::mpsc::*;
+    use super::*;
+    pub use std::sync::mpsc::{RecvError, SendError};
+
+    pub struct Sender<T>
+    {
+        inner: Option<shuttle::sync::mpsc::Sender<T>>,
+        id: usize,
+    }
+
+    pub struct Receiver<T>
+    {
+        inner: Option<shuttle::sync::mpsc::Receiver<T>>,
+        id: usize,
+    }
+
+    pub fn channel<T>() -> (Sender<T>, Receiver<T>)
+    {
+        let id = crate::sched::fresh_channel_id();
+        let (s, r) = shuttle::sync::mpsc::channel();
+        (Sender { inner: Some(s), id }, Receiver { inner: Some(r), id })
+    }
+
+    impl<T> Sender<T>
+    {
+        pub fn send(&self, t: T) -> Result<(), SendError<T>>
+        {
+            declare(OpDesc::Chan(self.id, "send"));
+            let r = self.inner.as_ref().unwrap().send(t);
+            if r.is_ok() { crate::sched::chan_sent(self.id); }
+            r
+        }
+    }
+
+    impl<T> Receiver<T>
+    {
+        pub fn recv(&self) -> Result<T, RecvError>
+        {
+            declare(OpDesc::Chan(self.id, "recv"));
+            let r = self.inner.as_ref().unwrap().recv();
+            if r.is_ok() { crate::sched::chan_received(self.id); }
+            r
+        }
+    }
+
+    // Dropping an endpoint is visible to the other side (a send on a channel without
+    // receiver fails, a receive on an empty channel without sender fails), so it is an
+    // operation of its own, preceded by a scheduling point.
+    impl<T> Drop for Sender<T>
+    {
+        fn drop(&mut self)
+        {
+            if in_execution() && !std::thread::panicking()
+            {
+                declare(OpDesc::Chan(self.id, "drop-sender"));
+                shuttle::thread::yield_now();
+            }
+            self.inner.take();
+            crate::sched::chan_sender_dropped(self.id);
+        }
+    }
+
+    impl<T> Drop for Receiver<T>
+    {
+        fn drop(&mut self)
+        {
+            if in_execution() && !std::thread::panicking()
+            {
+                declare(OpDesc::Chan(self.id, "drop-receiver"));
+                shuttle::thread::yield_now();
+            }
+            self.inner.take();
+        }
+    }
 }
